@@ -155,7 +155,11 @@ func genSpec(h *vh.H, name string, wide bool) *Spec {
 	}
 	s.Arr = h.Chance(1, 4)
 	if s.Arr {
-		s.Opt = false // `?` on a repeated field is meaningless and rejected by protoc rules
+		// `?` on a repeated field: accepted by the compiler, not carried by the descriptor (open finding
+		// schema-diff:array:opt:1->0, round-4 audit) — kept in 1 of 3 optional picks of the schema stream
+		if !(wide && s.Opt && h.Chance(1, 3)) {
+			s.Opt = false
+		}
 		if h.Chance(2, 3) {
 			s.AR = true
 			if h.Chance(1, 2) {
@@ -178,7 +182,9 @@ func genSpec(h *vh.H, name string, wide bool) *Spec {
 	if !s.Arr && h.Chance(1, 7) {
 		// map:<kind>: string keys, values of the kind; rules.minPairs / maxPairs, ext.singleForm
 		s.Map = true
-		s.Opt = false
+		if !(wide && s.Opt && h.Chance(1, 3)) {
+			s.Opt = false // as for arrays (open finding schema-diff:map:opt:1->0)
+		}
 		if h.Chance(2, 3) {
 			s.AR = true
 			if h.Chance(1, 2) {
@@ -355,6 +361,10 @@ func genSpec(h *vh.H, name string, wide bool) *Spec {
 		s.R = withRules && h.Chance(1, 3)
 		if wide && !s.Arr && !s.Map {
 			s.Flat = h.Chance(1, 4)
+		} else if wide {
+			// items.object.flatten / itemSchema.object.flatten: lost like the other item annotations
+			// (open finding schema-diff:array:obj:flat:1->0 / map, round-4 audit)
+			s.Flat = h.Chance(1, 6)
 		}
 	case "oneof", "ts":
 		s.R = withRules && h.Chance(1, 3)
